@@ -417,6 +417,9 @@ func Shapes(k Kind) []Shape {
 		return []Shape{
 			{Name: "src-content", Class: "source", Build: func(*Gen) reflect.Value { return val(ap.Source{Content: nlv("-", "raw *text*")}) }},
 			{Name: "src-mime", Class: "source", Build: func(*Gen) reflect.Value { return val(ap.Source{MediaType: "text/markdown"}) }},
+			{Name: "src-content-map", Class: "source", Quick: true, Build: func(*Gen) reflect.Value {
+				return val(ap.Source{Content: nlv("en", "raw *text*", "fr", "texte *brut*"), MediaType: "text/markdown"})
+			}},
 			{Name: "src-both", Class: "source", Quick: true, Build: func(*Gen) reflect.Value {
 				return val(ap.Source{Content: nlv("-", "raw *text*"), MediaType: "text/markdown"})
 			}},
